@@ -300,14 +300,18 @@ pub struct OpState {
     /// Heap address of the buffer the case gave to the operation.
     pub buf_addr: usize,
     pub expect: Option<Expect>,
+    /// The operation goes through a direct descriptor: `fd_raw` is its index
+    /// and every submission must carry IOSQE_FIXED_FILE.
+    pub fixed: bool,
 }
 
 impl OpState {
     /// Build the a10 future. Buffers are tagged RESOURCE.
     pub fn start(id: usize, kind: &OpKind, world: &mut World, fd: usize) -> (OpState, Box<dyn DynFut>) {
         let afd = world.fd(fd);
-        let fd_raw = sim_fd_number(afd);
-        let mut st = OpState { id, kind: kind.clone(), fd: Some(fd), fd_raw, source: Vec::new(), before: Vec::new(), buf_addr: 0, expect: None };
+        let fd_raw = world.direct_index.unwrap_or_else(|| sim_fd_number(afd));
+        let uses_fd = !matches!(kind, OpKind::CreateDir { .. } | OpKind::Remove { .. } | OpKind::Rename { .. } | OpKind::Wait { .. } | OpKind::ReceiveSignal);
+        let mut st = OpState { id, kind: kind.clone(), fd: Some(fd), fd_raw, source: Vec::new(), before: Vec::new(), buf_addr: 0, expect: None, fixed: world.direct_index.is_some() && uses_fd };
         let fut: Box<dyn DynFut> = match kind {
             OpKind::Truncate => {
                 let _s = track::scope(track::TAG_A10);
@@ -615,6 +619,16 @@ impl OpState {
     /// Independent expectation of the submission (everything except
     /// user_data, which the caller checks for plausibility and uniqueness).
     pub fn check_sqe(&self, sqe: &Sqe) -> Result<(), String> {
+        let mut normalised = *sqe;
+        if self.fixed {
+            if sqe.flags & abi::IOSQE_FIXED_FILE == 0 {
+                return Err(format!("submission of {} on a direct descriptor (index {}) does not carry IOSQE_FIXED_FILE: the kernel would use {} as a file descriptor number", self.kind.name(), self.fd_raw, sqe.fd));
+            }
+            normalised.flags &= !abi::IOSQE_FIXED_FILE;
+        } else if sqe.flags & abi::IOSQE_FIXED_FILE != 0 {
+            return Err(format!("submission of {} carries IOSQE_FIXED_FILE although it does not go through a direct descriptor", self.kind.name()));
+        }
+        let sqe = &normalised;
         let mut want = Sqe::zeroed();
         want.user_data = sqe.user_data;
         want.fd = self.fd_raw;
